@@ -168,6 +168,14 @@ def gen_cls(r, cname, mnames, faulty):
         c["how"] = r.choice(CTOR_FAILS)
     elif r.random() < 0.15:
         c["how"] = r.choice(CTOR_FLAVOURS)
+    # DISABLED reached by INHERITANCE (class key "inh"): a mixin `_Off<class>` of the same module sets DISABLED = True;
+    # "disabled": the class body does not mention DISABLED (attribute lookup gives True: marked DISABLED);
+    # "reenabled": the class body sets a falsy DISABLED after inheriting True (lookup gives the own value: a mode)
+    k = r.random()
+    if k < 0.08:
+        c["inh"], c["disabled"] = "disabled", True
+    elif k < 0.13:
+        c["inh"], c["disabled"] = "reenabled", r.choice(FALSY)
     if r.random() < 0.22:
         c["truth"] = r.choice(["len0", "len0", "bool_false", "bool_false", "len_grows", "len3"])
     return c
@@ -546,6 +554,12 @@ EDGE_CASES = [
     (False, [("alpha", None, [("A", "one", None, None, False, "len0"), ("B", "two", None, None, False, "bool_false")])],
      [["start", None, "one", 0], ["periodic", 20000], ["start", None, "two", 1000], ["periodic", 20000],
       ["start", None, "None", 0], ["periodic", 1000], ["disable"]]),
+    # DISABLED inherited from a mixin of the module (marked DISABLED), and re-enabled in the class body (a mode)
+    (False, [("alpha", None, [("A", "one", True, True, False, None, "disabled"), ("B", "two", False, None, False, None, "reenabled"),
+                              ("C", "three", None, None, False)])],
+     [["start", None, "two", 0], ["periodic", 20000], ["disable"]]),
+    (True, [("alpha", None, [("A", "one", True, None, False, None, "disabled"), ("B", "one", 0, True, False, None, "reenabled")])],
+     [["run", None, None, 0, 2, 20000, "disable"]]),
     # run(iter_fn=<the robot's own list of per-iteration functions>), the SAME list object for every autonomous period
     (False, [("alpha", None, [("A", "one", None, True, False), ("B", "two", None, None, False)])],
      [["run", None, None, 0, 2, 20000, "disable"], ["run", None, None, 500000, 3, 20000, "teleop"],
@@ -594,7 +608,7 @@ def edge_cases(base, start_idx):
             pkg["modules"].append({"stem": stem, "fail": fail, "junk": False, "classes": [
                 {"cname": x[0], "mode": x[1], "mn_none": False, "disabled": x[2], "default": x[3],
                  "raises": x[4] is True or x[4] in CTOR_FAILS, "how": x[4] if isinstance(x[4], str) else None,
-                 "truth": x[5] if len(x) > 5 else None}
+                 "truth": x[5] if len(x) > 5 else None, "inh": x[6] if len(x) > 6 else None}
                 for x in cls]})
             if len(mod) > 3:
                 pkg["modules"][-1]["portion"] = mod[3]
@@ -752,10 +766,13 @@ def cls_source(stem, c):
     cn = c["cname"]
     pre = ""
     bases = "c14_rt.Base"
+    if c.get("inh") in ("disabled", "reenabled"):
+        pre = "class _Off%s:\n    DISABLED = True\n\n" % cn
+        bases += ", _Off%s" % cn
     if how in ("abstract", "abstract_plain", "abc_concrete"):
         bases += ", abc.ABC"
     elif how == "abc_implemented":
-        pre = ("class _Abs%s(abc.ABC):\n    @abc.abstractmethod\n    def c14_step(self):\n        ...\n\n" % cn)
+        pre += ("class _Abs%s(abc.ABC):\n    @abc.abstractmethod\n    def c14_step(self):\n        ...\n\n" % cn)
         bases += ", _Abs%s" % cn
     elif how == "meta":
         bases += ", metaclass=c14_rt.FailingMeta"
@@ -766,7 +783,7 @@ def cls_source(stem, c):
         lines.append("    MODE_NAME = %r" % c["mode"])
     elif c.get("mn_none"):
         lines.append("    MODE_NAME = None")
-    if c["disabled"] is not None:
+    if c["disabled"] is not None and c.get("inh") != "disabled":
         lines.append("    DISABLED = %r" % (c["disabled"],))
     if c["default"] is not None:
         lines.append("    DEFAULT = %r" % (c["default"],))
@@ -799,10 +816,14 @@ def cls_source(stem, c):
 
 def helper_members(c):
     """class members of the module that come with a class of the layout (inspect.getmembers sees them too)"""
+    out = []
+    if c.get("inh") in ("disabled", "reenabled"):
+        out.append({"cname": "_Off" + c["cname"], "mode": None, "mn_none": False, "disabled": True, "default": None,
+                    "raises": False})
     if how_of(c) == "abc_implemented":
-        return [{"cname": "_Abs" + c["cname"], "mode": None, "mn_none": False, "disabled": None, "default": None,
-                 "raises": False}]
-    return []
+        out.append({"cname": "_Abs" + c["cname"], "mode": None, "mn_none": False, "disabled": None, "default": None,
+                    "raises": False})
+    return out
 
 
 def module_source(m, key=None):
@@ -1956,6 +1977,10 @@ def run(ctx):
                 ctx.count("implicit-package:module-name-in-both-directories,%s" % (
                     "shadowed-file-would-not-import" if m["fail"] else
                     "same-classes" if m["classes"] == live["classes"] and not live["fail"] else "other-classes"))
+        for m in live_modules(c["pkg"]):
+            for x in m["classes"]:
+                if x.get("inh") and x["mode"] is not None and not m["fail"]:
+                    ctx.count("mode-class:DISABLED-by-inheritance=%s" % x["inh"])
         for _, x in needed_classes(c):
             ctx.count("needed-class:constructor=%s" % (how_of(x) or "plain"))
             if x.get("truth"):
@@ -2166,6 +2191,11 @@ def replay(ctx, obj):
                   % mod_file(case["pkg"], base, skey(case["pkg"], m)))
     for m in live_modules(case["pkg"]):
         for c in m["classes"]:
+            if c.get("inh"):
+                print("class %s.%s inherits DISABLED = True from the mixin _Off%s of its module%s" % (
+                    m["stem"], c["cname"], c["cname"],
+                    " and sets DISABLED = %r in its own body" % (c["disabled"],) if c["inh"] == "reenabled" else
+                    " (its own body does not mention DISABLED): marked DISABLED"))
             if c.get("truth") in FALSY_TRUTHS:
                 print("instances of class %s.%s are falsy (%s)" % (m["stem"], c["cname"], TRUTH_TEXT[c["truth"]]))
             if c.get("raises"):
